@@ -437,7 +437,7 @@ def run_part2(case, ob, site):
 # part 3: block-level faults
 
 FAULTS = ['second_driver', 'undriven', 'undriven_register', 'undriven_output', 'reg_driven_by_gate', 'cycle_into_sync_mem', 'unconnected', 'foreign_wire', 'foreign_dest', 'duplicate_name', 'stale_by_name', 'missing_by_name',
-          'sync_mem_comb_addr', 'comb_cycle', 'isolated_ring', 'mem_cycle', 'bad_arity', 'bad_width']
+          'sync_mem_comb_addr', 'comb_cycle', 'isolated_ring', 'mem_cycle', 'bad_arity', 'bad_width', 'bad_memid', 'write_to_rom']
 CYCLES = ('comb_cycle', 'isolated_ring', 'mem_cycle', 'cycle_into_sync_mem')   # detected by iteration (simulator construction), not by sanity_check alone
 
 
@@ -626,6 +626,23 @@ def inject(block, fault, fsite):
                 return False
             n = cand[fsite]
             n.dests[0].bitwidth = n.args[0].bitwidth + 2
+        elif fault == 'bad_memid':
+            # a memory port whose op_param names another memory id than the MemBlock it carries
+            cand = [n for n in nets if n.op in 'm@']
+            if fsite >= len(cand):
+                return False
+            n = cand[fsite]
+            block.logic.remove(n)
+            block.logic.add(LogicNet(n.op, (n.op_param[0] + 12345, n.op_param[1]), n.args, n.dests))
+        elif fault == 'write_to_rom':
+            roms = sorted({n.op_param[1] for n in nets if n.op == 'm' and isinstance(n.op_param[1], pyrtl.RomBlock)}, key=lambda m: m.name)
+            if fsite >= len(roms):
+                return False
+            rom = roms[fsite]
+            a_ = pyrtl.Input(rom.addrwidth, 'vf_rom_wa')
+            d_ = pyrtl.Input(rom.bitwidth, 'vf_rom_wd')
+            e_ = pyrtl.Input(1, 'vf_rom_we')
+            block.logic.add(LogicNet('@', (rom.id, rom), (a_, d_, e_), ()))
         elif fault == 'no_bitwidth':
             cand = [w for w in wires if not isinstance(w, (pyrtl.Const, pyrtl.Input, pyrtl.Output, pyrtl.Register))]
             if fsite >= len(cand):
@@ -655,21 +672,28 @@ def _acceptors(block, res):
         raise _Hang()
 
     def tryit(name, fn):
-        # a check that does not come back is neither a rejection nor a simulation: reported as such after 10 s
-        old = signal.signal(signal.SIGALRM, _alarm)
-        signal.alarm(10)
+        # a check that does not come back is neither a rejection nor a simulation: reported as such after 10 s of this
+        # process's own CPU time (a loaded machine or a slow C compiler must not look like a hang) or 300 s of wall time
+        old = signal.signal(signal.SIGVTALRM, _alarm)
+        old2 = signal.signal(signal.SIGALRM, _alarm)
+        signal.setitimer(signal.ITIMER_VIRTUAL, 10)
+        prev = signal.alarm(300)
         try:
             fn()
             res[name] = None
         except (pyrtl.PyrtlError, pyrtl.PyrtlInternalError) as e:
             res[name] = 'rejected'
         except _Hang:
-            res[name] = 'other: no answer within 10 s (does not terminate)'
+            res[name] = 'other: no answer within 10 s of CPU time (does not terminate)'
         except Exception as e:
             res[name] = 'other:%s: %s' % (type(e).__name__, e)
         finally:
+            signal.setitimer(signal.ITIMER_VIRTUAL, 0)
             signal.alarm(0)
-            signal.signal(signal.SIGALRM, old)
+            signal.signal(signal.SIGVTALRM, old)
+            signal.signal(signal.SIGALRM, old2)
+            if prev:
+                signal.alarm(prev)       # the runner's own per-case limit keeps running
     tryit('sanity_check', block.sanity_check)
     tryit('Simulation', lambda: pyrtl.Simulation(block=block))
     tryit('FastSimulation', lambda: pyrtl.FastSimulation(block=block))
